@@ -618,3 +618,64 @@ def _(run):
         need = {'XMLSchemaValidationError', 'KeyError', 'TypeError'}
         run.vc('validation-key-and-type-errors-of-the-helper-are-collected', z3.BoolVal(True), [], z3.BoolVal(collected and (need <= caught or 'Exception' in caught)), f'call {n}: caught={sorted(caught)}')
     run.paths = max(1, n)
+
+
+# ------------------------------------------------------------------ the end-of-document reference checks run for whole documents only (C20, C04, C08)
+def _mk_refchecks(fn):
+    t = Target(f'schemas.XMLSchemaBase.{fn}.reference_checks_guard', ['C20', 'C04', 'C08'], 'xmlschema/validators/schemas.py', f'XMLSchemaBase.{fn}',
+               note='the end-of-document checks (_validate_references: unresolved xs:IDREF values, key references still open) are called at exactly one place, a top-level statement '
+                    'of the function, and the condition under which it runs is equivalent to "no depth limit and no path was given": a part of a document (a path-selected '
+                    'element, the levels above max_depth) is never judged by references that leave it, and a whole document always is',
+               assumes=['the guard is evaluated symbolically on the arguments max_depth (None or an int) and path (None or a string); statements between the top of the function and the '
+                        'guard are not executed: the contract pins where the call is and under which condition, not what precedes it'])
+
+    @t.symbolic
+    def _(run):
+        ex = run.exec(); st = new_state()
+        calls = [n for n in ast.walk(ex.fn) if isinstance(n, ast.Call) and isinstance(n.func, ast.Attribute) and n.func.attr == '_validate_references']
+        pre = z3.BoolVal(True)
+        run.vc('exactly-one-call-of-the-reference-checks', pre, [], z3.BoolVal(len(calls) == 1), 'ast')
+        if len(calls) != 1: run.paths = 1; return
+        # the statement of the function body that contains the call
+        tops = [s_ for s_ in ex.fn.body if any(n is calls[0] for n in ast.walk(s_))]
+        top = tops[0]
+        plain = isinstance(top, ast.Expr) and isinstance(top.value, ast.YieldFrom) and top.value.value is calls[0]
+        guarded = (isinstance(top, ast.If) and not top.orelse and len(top.body) == 1 and isinstance(top.body[0], ast.Expr) and isinstance(top.body[0].value, ast.YieldFrom)
+                   and top.body[0].value.value is calls[0])
+        run.vc('the-call-is-a-top-level-statement-or-its-only-guard', pre, [], z3.BoolVal(plain or guarded), 'ast')
+        if not (plain or guarded): run.paths = 1; return
+        md_none, p_none = z3.Bool('max_depth_none'), z3.Bool('path_none'); md, p = z3.Int('max_depth'), z3.String('path')
+        st.env.update(max_depth=VOpt(md_none, VInt(md)), path=VOpt(p_none, VStr(p)), self=OPAQUE)
+        ex.pending_raise = []; ex.obligations = getattr(ex, 'obligations', [])
+        cond = z3.BoolVal(True) if plain else ex.truthy(st, ex.ev(top.test, st))
+        whole = z3.And(md_none, z3.Or(p_none, p == SV('')))
+        run.inputs.update(max_depth_none=md_none, path_none=p_none, path=p)
+        run.vc('runs-exactly-for-whole-documents', pre, [], cond == whole, 'guard')
+        run.paths = 1
+
+    @t.concrete
+    def _(inp):
+        import xmlschema
+        s = xmlschema.XMLSchema10('''<xs:schema xmlns:xs="http://www.w3.org/2001/XMLSchema"><xs:element name="m"><xs:complexType><xs:sequence>
+ <xs:element name="c" maxOccurs="unbounded"><xs:complexType><xs:sequence><xs:element name="p" minOccurs="0"><xs:complexType><xs:attribute name="id" type="xs:ID"/></xs:complexType></xs:element></xs:sequence>
+ <xs:attribute name="id" type="xs:ID"/><xs:attribute name="next" type="xs:IDREF"/></xs:complexType></xs:element></xs:sequence></xs:complexType></xs:element></xs:schema>''')
+        doc = '<m><c id="c1" next="c2"><p id="p1"/></c><c id="c2" next="p1"/></m>' if inp['resolved'] else '<m><c id="c1" next="nowhere"/></m>'
+        kw = {}
+        if inp['path']: kw['path'] = inp['path']
+        if inp['max_depth']: kw['max_depth'] = inp['max_depth']
+        if fn == 'iter_errors': errs = [e.reason for e in s.iter_errors(doc, **kw)]
+        else: errs = [e.reason for e in s.iter_decode(doc, validation='lax', **kw) if isinstance(e, Exception)]
+        n = sum('IDREF' in (r or '') for r in errs)
+        want = 1 if (not inp['resolved'] and not kw) else 0
+        return dict(ok=n == want, observed=errs[:2], required=f'{want} unresolved-reference error(s)')
+
+    @t.scope
+    def _(tier, rng):
+        for resolved in (True, False):
+            for path in (None, '/m/c[1]', '/m/c[2]', '/m/c'):
+                for md in (None, 1, 2):
+                    if not (path and md): yield dict(resolved=resolved, path=path, max_depth=md)
+    return t
+
+
+for _f in ('iter_errors', 'iter_decode'): _mk_refchecks(_f)
